@@ -192,6 +192,7 @@ type ssoSend struct {
 	SentEncoding string                     // the SAMLEncoding parameter as sent
 	AfterSign    func(m *spsim.RedirectMsg) // edits of the signed redirect message before it is sent
 
+	hdr            map[string][]string
 	rawSAMLRequest string // when set (or forceRaw): the parameter value sent verbatim instead of the encoded XML
 	forceRaw       bool
 }
@@ -216,7 +217,7 @@ func (s *ssoSend) do(e *env.Env) (*env.Call, *spsim.RedirectMsg) {
 			kv = append(kv, "SAMLEncoding", s.Encoding)
 		}
 		kv = append(kv, s.Extra...)
-		return e.Do(env.Req{Method: "POST", Path: path, Body: spsim.FormBody(kv...), Host: s.Host}), nil
+		return e.Do(env.Req{Method: "POST", Path: path, Body: spsim.FormBody(kv...), Host: s.Host, Headers: s.hdr}), nil
 	}
 	m := &spsim.RedirectMsg{Param: "SAMLRequest", Value: spsim.DeflateB64(s.XML), RelayState: s.Relay, HasRelay: s.HasRelay, Pct: s.Pct, Encoding: s.Encoding}
 	if s.rawSAMLRequest != "" || s.forceRaw {
@@ -246,7 +247,7 @@ func (s *ssoSend) do(e *env.Env) (*env.Call, *spsim.RedirectMsg) {
 	if meth == "" {
 		meth = "GET"
 	}
-	return e.Do(env.Req{Method: meth, Path: path, Query: q, Host: s.Host}), m
+	return e.Do(env.Req{Method: meth, Path: path, Query: q, Host: s.Host, Headers: s.hdr}), m
 }
 
 // ---------- users ----------
